@@ -23,7 +23,7 @@ EXPLANATION = ('Dominance rules with strength over the CFG of lz4::decompress, r
                'decremented after every copy, the source cursor is tested before every read of the sequence header, the constants are '
                'coherent, and the wrapper neither skips a result check nor rejects more than the decoder contract.  That the bytes '
                'produced equal a reference decoder\'s and that compressed fonts shape identically are run-time facts, not decided.')
-FLOORS = {'COPYGUARD': 11, 'BOOKKEEPING': 2, 'SEQGUARD': 3, 'LZCONST': 1, 'DECOMPRESS': 6, 'TABLETS': 1}
+FLOORS = {'COPYGUARD': 11, 'BOOKKEEPING': 2, 'SEQGUARD': 4, 'LZCONST': 1, 'DECOMPRESS': 6, 'TABLETS': 1}
 
 import re
 
@@ -569,9 +569,167 @@ def run(run):
         copyexec(run, fx)
     except AnalysisBroken as ex:
         run.broken('COPYGUARD', 'copy helpers keep their contracts', str(ex))
+    inst_ = 'lz4::decompress stays inside both buffers and decodes valid blocks exactly (interpreted)'
+    dfn_ = fx.one('lz4::decompress')
+    try:
+        from . import ordint as O_
+        cases_, bad_ = lz4exec(run, fx)
+        if bad_:
+            run.violated('SEQGUARD', inst_, dfn_.where(), bad_)
+        else:
+            run.held('SEQGUARD', inst_, dfn_.where(), '%d concrete executions on exact-size buffers' % cases_)
+    except (AnalysisBroken, O_.AnalysisBroken) as ex:
+        run.broken('SEQGUARD', inst_, str(ex), dfn_.where())
     bookkeeping(run, fx)
     seqguard(run, fx)
     lzconst(run, fx)
     decompress(run, fx)
     from . import c16
     c16.flagpair(run, fx)        # the compressed original goes back to the application, not to free(): flag and pointer change together (shared with C16)
+
+
+def _lz4_ref(src, out_size):
+    """reference LZ4 block decoder (the block format as documented); returns the bytes or None when the block is malformed"""
+    out, i, n = bytearray(), 0, len(src)
+    while True:
+        if i >= n:
+            return None
+        tok = src[i]
+        i += 1
+        ll = tok >> 4
+        if ll == 15:
+            while True:
+                if i >= n:
+                    return None
+                b = src[i]
+                i += 1
+                ll += b
+                if b != 255:
+                    break
+        if i + ll > n:
+            return None
+        out += src[i:i + ll]
+        i += ll
+        if i == n:
+            return bytes(out) if len(out) <= out_size else None
+        if i + 2 > n:
+            return None
+        dist = src[i] | (src[i + 1] << 8)
+        i += 2
+        ml = tok & 15
+        if ml == 15:
+            while True:
+                if i >= n:
+                    return None
+                b = src[i]
+                i += 1
+                ml += b
+                if b != 255:
+                    break
+        ml += 4
+        if dist == 0 or dist > len(out):
+            return None
+        for _ in range(ml):
+            out.append(out[-dist])
+        if len(out) > out_size:
+            return None
+
+
+def _lz4_enc(seqs, tail):
+    """seqs: [(literal bytes, distance, match length >= 4)], tail: the final literals (>= 5 bytes, and the last match must start >= 12 bytes before the end)"""
+    out = bytearray()
+
+    def ext(v):
+        b = bytearray()
+        while v >= 255:
+            b.append(255)
+            v -= 255
+        b.append(v)
+        return b
+    for lit, dist, ml in seqs:
+        tok = (min(len(lit), 15) << 4) | min(ml - 4, 15)
+        out.append(tok)
+        if len(lit) >= 15:
+            out += ext(len(lit) - 15)
+        out += lit
+        out += bytes([dist & 255, dist >> 8])
+        if ml - 4 >= 15:
+            out += ext(ml - 4 - 15)
+    out.append(min(len(tail), 15) << 4)
+    if len(tail) >= 15:
+        out += ext(len(tail) - 15)
+    out += tail
+    return bytes(out)
+
+
+def lz4exec(run, fx):
+    """"the LZ4 decoder is exact and bounded", by bounded concrete execution (rules/ordint.py): lz4::decompress with read_sequence,
+    read_literal, align and the three copy helpers inlined from their own CFGs (memcpy is a native on the byte model) is interpreted on
+    exact-size input and output buffers -- any read outside the input or the part of the output already produced, any write outside
+    the output, is reported by the interpreter.  Inputs: valid blocks built from sequence descriptions that exercise every branch
+    (literal runs of 0, 1..14, 15+ bytes; matches at distance 1, 2, 3, 4, 8 and farther, overlapping their own output; match lengths 4,
+    5..18, 19+; the word-copy and the byte-copy arm), decoded into a buffer of exactly the plain size and of one byte more; and the
+    malformations of each (every truncation, every single-byte change to 0x00 / 0xFF / +1 of the first 24 bytes).  A valid block decodes to
+    the reference decoder's bytes and length; for a malformed one the function may answer -1 or any length, but stays inside both buffers."""
+    from . import ordint as O
+    fn = fx.one('lz4::decompress')
+
+    def memcpy_native(it, f, e, obj, args):
+        d, s_, n_ = [it.rv(a) for a in args[:3]]
+        if not (isinstance(d, O.It) and isinstance(s_, O.It) and isinstance(n_, int)):
+            raise AnalysisBroken('memcpy with arguments the byte model does not know')
+        src = [it.deref_it(O.It(s_.vec, s_.idx + k, s_.gen), f, e).load() for k in range(n_)]
+        for k in range(n_):
+            it.deref_it(O.It(d.vec, d.idx + k, d.gen), f, e).store(src[k])
+        return d
+    nat = {'memcpy': memcpy_native, 'memmove': memcpy_native, '__builtin_memcpy': memcpy_native, '__builtin_memmove': memcpy_native}
+    A = bytes(range(0x41, 0x41 + 26))
+    blocks = []
+    for lit, dist, ml, tail in [(A[:1], 1, 4, 12), (A[:1], 1, 19, 12), (A[:2], 2, 9, 12), (A[:3], 3, 7, 13), (A[:4], 4, 12, 12), (A[:8], 8, 8, 12), (A[:8], 8, 24, 14),
+                                (A[:14], 5, 6, 12), (A[:15], 15, 15, 12), (A[:16], 9, 40, 12), (A[:20], 20, 20, 16), (A[:9], 1, 300, 12)]:
+        blocks.append([(lit, dist, ml)], ) if False else blocks.append(([(lit, dist, ml)], A[::-1][:tail]))
+    blocks.append(([(A[:6], 6, 6), (b'', 3, 5), (A[6:9], 12, 10)], A[:12]))
+    blocks.append(([(b'', 0, 4)], A[:12]))                       # a match with nothing decoded yet: malformed from the start
+    blocks.append(([(A[:4], 4, 4), (A[4:20], 1, 4)], A[:12]))
+    blocks.append(([(A[:9], 1, 0x10001 + 7, )], A[:12]))          # a run longer than 64K: the format has no limit on the match LENGTH, only on the distance
+    cases, prob = 0, None
+    for seqs, tail in blocks:
+        enc = _lz4_enc(seqs, tail)
+        plain = _lz4_ref(enc, 1 << 20)
+        variants = [(enc, 'the block as built')]
+        big = plain is not None and len(plain) > 4096
+        for k in range(1, min(len(enc), 14) if not big else 1):
+            variants.append((enc[:-k], 'truncated by %d byte(s)' % k))
+        for pos in range(min(len(enc), 24) if not big else 0):
+            for v in (0, 0xFF, (enc[pos] + 1) & 0xFF):
+                if v != enc[pos]:
+                    variants.append((enc[:pos] + bytes([v]) + enc[pos + 1:], 'byte %d set to %#04x' % (pos, v)))
+        for data, what in variants:
+            ref = _lz4_ref(data, 1 << 20)
+            sizes = sorted({len(plain) if plain else len(data) + 8, (len(plain) if plain else len(data) + 8) + 1, len(data) + 1}) if not big else [len(plain)]
+            for osz in sizes:
+                inb, outb = O.Vec(list(data)), O.Vec(['?'] * osz)
+                it = O.Interp(fx, natives=nat)
+                it.MAX_STEPS = 40000 if not big else 3000000
+                cases += 1
+                desc = 'LZ4 block %s (%s; %d -> %d bytes), output buffer of %d' % (data[:24].hex(), what, len(data), len(ref) if ref else -1, osz)
+                try:
+                    r = it.call(fn, None, [O.It(inb, 0), len(data), O.It(outb, 0), osz])
+                except O.Violation as v:
+                    prob = '%s: %s (%s)' % (desc, v.what, v.loc)
+                    break
+                if ref is not None and len(ref) <= osz and osz > len(data) and what == 'the block as built':
+                    got = bytes(x for x in outb.items[:len(ref)] if isinstance(x, int)) if r == len(ref) else None
+                    if r != len(ref) or got != ref:
+                        prob = '%s: a valid block decodes to %r (%s), the reference decoder gives %d bytes' % (desc, r, 'wrong bytes' if r == len(ref) else 'wrong length', len(ref))
+                        break
+                if isinstance(r, int) and r >= 0 and ref is not None and what != 'the block as built' and r == len(ref) and len(ref) <= osz:
+                    got = bytes(x for x in outb.items[:r] if isinstance(x, int))
+                    if got != ref:
+                        prob = '%s: the block is still valid and decodes to different bytes than the reference decoder' % desc
+                        break
+            if prob:
+                break
+        if prob:
+            break
+    return cases, prob
